@@ -136,3 +136,108 @@ Proof.
   - repeat split; intros; try discriminate; contradiction.
 Qed.
 
+Lemma dinv_step s lb s' : CInv s -> DInv s -> step s lb = Some s' -> DInv s'.
+Proof.
+  intros C [He Hn (Hne1 & Hne2 & Hne3)] Hs.
+  pose proof (ci_sdrop _ C) as Hsd. pose proof (ci_retake _ C) as Hrt.
+  destruct s as [sl p w sd rd sp rp mg dl sr wk wo].
+  unfold delivered_values, in_flight, slot_list in *.
+  cbn [slot permit wtr sender_dropped receiver_dropped s_pc r_pc merged delivered send_results wakes woken] in *.
+  destruct lb; cbn in Hs.
+  - (* SCheck *)
+    destruct sp; try discriminate. destruct rd; injection Hs as <-; constructor; cbn; auto.
+  - (* SMerge *)
+    destruct sp; try discriminate. injection Hs as <-.
+    assert (Hsdf : sd = false).
+    { destruct sd; [|reflexivity]. destruct Hsd as [Hsd _]. destruct (Hsd eq_refl); discriminate. }
+    subst sd.
+    assert (Hn' : ~ (In (RecvRet None) dl \/ exists f, rp = RReturning f None)).
+    { intros H. destruct (Hn H) as [H1 _]. discriminate. }
+    destruct u as [x|]; [|destruct sl as [l|]];
+      (constructor; unfold delivered_values, in_flight, slot_list; cbn;
+       [ | intros H; exfalso; apply Hn'; exact H | ]).
+    + destruct sl as [l|]; cbn in *; rewrite <- He, <- !app_assoc; reflexivity.
+    + repeat split; auto. intros l H. injection H as <-. destruct sl; intros E; [apply app_eq_nil in E as [_ E]|]; discriminate.
+    + rewrite ?app_nil_r in *. exact He.
+    + repeat split; auto.
+    + rewrite ?app_nil_r in *. exact He.
+    + repeat split; auto.
+  - (* SNotify *)
+    destruct sp; try discriminate. injection Hs as <-.
+    destruct w as [|hw|]; constructor; cbn; auto.
+  - (* SDropFlag *)
+    destruct sp; try discriminate. injection Hs as <-. constructor; cbn; auto.
+    intros H. destruct (Hn H) as (_ & H2 & H3). auto.
+  - (* SDropNotify *)
+    destruct sp; try discriminate. injection Hs as <-.
+    destruct w as [|hw|]; constructor; cbn; auto.
+  - (* RStart *)
+    destruct rp; try discriminate; destruct p; injection Hs as <-; constructor; cbn; auto.
+    all: try (intros [H|[f H]]; [apply Hn; left; exact H|discriminate]).
+    all: repeat split; auto; intros; discriminate.
+  - (* RTake *)
+    destruct rp as [| |f|f|f|f v|f| |]; try discriminate.
+    destruct sl as [l|]; injection Hs as <-; constructor; cbn in *; auto.
+    + rewrite app_nil_r in *. exact He.
+    + intros [H|[f0 H]]; [|discriminate]. destruct (Hn (or_introl H)) as (_ & H2 & _). discriminate.
+    + repeat split; auto; try discriminate. intros f0 l0 H. injection H as _ <-. apply Hne1. reflexivity.
+    + intros [H|[f0 H]]; [apply Hn; left; exact H|discriminate].
+    + repeat split; auto; intros; discriminate.
+  - (* RCheckDropped *)
+    destruct rp as [| |f|f|f|f v|f| |]; try discriminate. injection Hs as <-.
+    destruct sd; constructor; cbn in *; auto.
+    all: try (intros [H|[f0 H]]; [apply Hn; left; exact H|discriminate]).
+    all: repeat split; auto; intros; discriminate.
+  - (* RRetake *)
+    destruct rp as [| |f|f|f|f v|f| |]; try discriminate. injection Hs as <-.
+    pose proof (Hrt f eq_refl) as Hsdt. subst sd.
+    constructor; cbn in *.
+    + destruct sl as [l|]; cbn in *; rewrite ?app_nil_r in *; exact He.
+    + intros H. split; [reflexivity|]. split; [reflexivity|].
+      destruct sl as [l|].
+      * destruct H as [H|[f0 H]]; [|discriminate]. destruct (Hn (or_introl H)) as (_ & H2 & _). discriminate.
+      * cbn in He. rewrite !app_nil_r in He. exact He.
+    + repeat split; auto; try discriminate. intros f0 l0 H. injection H as _ H. apply Hne1. exact H.
+  - (* RDropFut *)
+    destruct rp as [| |f|f|f|f v|f| |]; try discriminate.
+    destruct (drop_notified f p w) as [p' w']. injection Hs as <-.
+    constructor; cbn in *.
+    + rewrite map_app, concat_app. cbn [map concat]. rewrite app_nil_r.
+      destruct v as [l|]; cbn [ret_val]; rewrite <- ?app_assoc in *; rewrite ?app_nil_r in *; exact He.
+    + intros [H|[f0 H]]; [|discriminate].
+      rewrite map_app, concat_app. cbn [map concat]. rewrite app_nil_r.
+      apply in_app_or in H as [H|[H|[]]].
+      * destruct (Hn (or_introl H)) as (H1 & H2 & H3). subst sl.
+        destruct v as [l|]; cbn [ret_val]; rewrite ?app_nil_r in *; [|auto].
+        exfalso. rewrite <- H3 in He. rewrite <- (app_nil_r (concat (map ret_val dl))) in He at 2.
+        apply app_inv_head in He. apply (Hne2 f l eq_refl He).
+      * injection H as ->. cbn [ret_val]. rewrite app_nil_r.
+        apply Hn. right. exists f. reflexivity.
+    + repeat split; auto; try discriminate. intros l H. apply in_app_or in H as [H|[H|[]]]; [auto|].
+      injection H as ->. apply (Hne2 f l eq_refl).
+  - (* RPollNotified *)
+    destruct rp as [| |f|f|f|f v|f| |]; try discriminate.
+    + destruct f; [destruct w as [|hw|]; try discriminate|]; injection Hs as <-; constructor; cbn in *; auto.
+      all: try (intros [H|[f0 H]]; [apply Hn; left; exact H|discriminate]).
+      all: repeat split; auto; intros; discriminate.
+    + destruct w as [|hw|]; try discriminate; injection Hs as <-; constructor; cbn in *; auto.
+      all: try (intros [H|[f0 H]]; [apply Hn; left; exact H|discriminate]).
+      all: repeat split; auto; intros; discriminate.
+  - (* RCancel *)
+    destruct rp as [| |f|f|f|f v|f| |]; try discriminate.
+    destruct w as [|hw|]; cbn in Hs; injection Hs as <-; constructor; cbn in *; auto.
+    all: try (intros [H|[f0 H]]; [apply Hn; left; exact H|discriminate]).
+    all: repeat split; auto; intros; discriminate.
+  - (* RDropReceiver *)
+    destruct rp as [| |f|f|f|f v|f| |]; try discriminate. injection Hs as <-. constructor; cbn in *; auto.
+    + intros [H|[f0 H]]; [apply Hn; left; exact H|discriminate].
+    + repeat split; auto; intros; discriminate.
+  - (* RTryRecv *)
+    destruct rp as [| |f|f|f|f v|f| |]; try discriminate. injection Hs as <-. constructor; cbn in *.
+    + rewrite map_app, concat_app. cbn [map concat]. rewrite !app_nil_r in *.
+      destruct sl as [l|]; cbn [ret_val]; rewrite ?app_nil_r in *; exact He.
+    + intros [H|[f0 H]]; [|discriminate]. apply in_app_or in H as [H|[H|[]]]; [|discriminate].
+      destruct (Hn (or_introl H)) as (H1 & H2 & H3). subst sl.
+      rewrite map_app, concat_app. cbn [map concat ret_val]. rewrite !app_nil_r. auto.
+    + repeat split; auto; try discriminate. intros l H. apply in_app_or in H as [H|[H|[]]]; [auto|discriminate].
+Qed.
